@@ -33,81 +33,90 @@ def run(tier, seed):
     st = ws.finding_status(chk)
     avoid = {k for k, key in (("K1", ws.K1), ("K3", ws.K3)) if st.get(key) == "open"}
     k2_open = st.get(ws.K2) == "open"
+    F = ws.fam
 
     # ---- 1. TLC decides the reference decoder (bounded, explicit bytes, every segmentation)
-    mcs = [("C31_dec2", ws.consts(Mode="dec", MaxFrames=2, Limit=2, Fins={0, 1}, Rsvs={0, 4}, Ops={0, 1, 2, 8, 9, 3},
-                                  Masks={0, 1}, Lens={(7, 0), (7, 2), (7, 3)}, Pols={1, 8})),
-           ("C31_dec_len", ws.consts(Mode="dec", MaxFrames=2, Limit=130, Fins={1}, Rsvs={0}, Ops={1, 9},
-                                     Masks={0, 1}, Lens={(7, 1), (16, 126), (16, 2), (64, 3), (64, 131), (16, 131)},
-                                     His={0, 1, 2}, Pols={1, 8}))]
+    dec_fams = [
+        # fragmentation / control / reserved / oversize(3 > lim) interplay, pairs
+        F(n=2, lim=2, ops=(0, 1, 2, 8, 9, 3), masks=(1,), lens=((7, 0), (7, 2), (7, 3))),
+        # RSV bits, unmasked frames
+        F(n=2, lim=2, fins=(1,), rsvs=(0, 4), ops=(1, 9, 8), masks=(0, 1), lens=((7, 0), (7, 2))),
+        # every length form incl. non-minimal, > 125 control, upper length bytes
+        F(n=1, lim=130, fins=(1,), ops=(1, 9), masks=(0, 1), lens=((7, 1), (16, 126), (16, 2), (64, 3), (64, 131), (16, 131)), his=(0, 1, 2)),
+    ]
     if not q:
-        mcs.append(("C31_dec3", ws.consts(Mode="dec", MaxFrames=3, Limit=2, Fins={0, 1}, Rsvs={0}, Ops={0, 1, 2, 8, 9, 3},
-                                          Masks={1}, Lens={(7, 0), (7, 2), (7, 3)}, Pols={1, 7})))
-    for name, c in mcs:
-        ws.model_check_decoder(chk, name, c, workers=8 if q else None)
+        dec_fams += [F(n=3, lim=2, ops=(0, 1, 2, 8, 9, 3), masks=(1,), lens=((7, 0), (7, 2), (7, 3))),
+                     F(n=2, lim=2, rsvs=(0, 4), ops=(0, 1, 2, 8, 9, 10, 3, 11), masks=(0, 1), lens=((7, 0), (7, 2), (7, 3), (16, 1)))]
+    ws.model_check_decoder(chk, "C31_dec", ws.consts(dec_fams, Mode="dec", Pols={1, 8} if q else {1, 2, 3, 5, 8}),
+                           workers=8 if q else None)
 
     # ---- 2. generated frame sequences, replayed on the real server
     plans = [
         # every opcode / FIN / RSV / mask combination, one frame
-        dict(name="C31_g_ops", c=ws.consts(MaxFrames=1, Ops=set(range(16)), Rsvs={0, 1, 2, 4, 7}, Masks={0, 1}, Lens=SMALL, Avoid=avoid),
-             singles=None if not q else 6, multis=1),
+        dict(name="ops", f=F(n=1, ops=range(16), rsvs=(0, 1, 2, 4, 7), masks=(0, 1), lens=SMALL), singles=4 if q else None, multis=1),
         # every length class and length form, one frame
-        dict(name="C31_g_len", c=ws.consts(MaxFrames=1, Ops={1, 2, 9, 8}, Fins={1}, Masks={0, 1}, Lens=ALL_LENS, Avoid=avoid),
-             singles=8 if q else 40, multis=2),
+        dict(name="len", f=F(n=1, ops=(1, 2, 9, 8), fins=(1,), masks=(0, 1), lens=ALL_LENS), singles=8 if q else 40, multis=2),
         # around the size limit and with the upper length bytes set
-        dict(name="C31_g_big", c=ws.consts(MaxFrames=1, Ops={1, 2}, Fins={1}, Masks={1} if q else {0, 1},
-                                           Lens={(64, L), (64, L + 1), (64, 70000)}, His={0, 1, 2, 3}, Avoid=avoid),
+        dict(name="big", f=F(n=1, ops=(1, 2), fins=(1,), masks=(1,) if q else (0, 1), lens=((64, L), (64, L + 1), (64, 70000)), his=(0, 1, 2, 3)),
              singles=2 if q else 12, multis=1),
         # pairs: interleaving, fragments + control frames, things after a terminating frame
-        dict(name="C31_g_pair", c=ws.consts(MaxFrames=2, Ops={0, 1, 2, 8, 9, 10, 3}, Masks={1} if q else {0, 1}, Lens=SMALL, Avoid=avoid),
-             singles=6 if q else None, multis=2),
-        dict(name="C31_g_pairlen", c=ws.consts(MaxFrames=2, Ops={1, 2, 9}, Fins={1}, Masks={0, 1},
-                                               Lens={(7, 1), (7, 125), (16, 126), (64, 65536)} if q else ALL_LENS, Avoid=avoid),
+        dict(name="pair", f=F(n=2, ops=(0, 1, 2, 8, 9, 10, 3), masks=(1,) if q else (0, 1), lens=SMALL), singles=4 if q else None, multis=2),
+        dict(name="pairlen", f=F(n=2, ops=(1, 2, 9), fins=(1,), masks=(0, 1), lens=((7, 1), (7, 125), (16, 126), (64, 65536)) if q else ALL_LENS),
              singles=4 if q else 16, multis=1),
-        # long random sequences (simulation)
-        dict(name="C31_g_sim", c=ws.consts(MaxFrames=5 if q else 6, Ops={0, 1, 2, 9, 10, 8}, Rsvs={0}, Masks={0, 1},
-                                           Lens={(7, 0), (7, 3), (7, 125), (16, 126), (16, 300)}, Avoid=avoid),
-             simulate=60 if q else 600, singles=5 if q else 20, multis=2),
+        # longer sequences over a small alphabet
+        dict(name="quad", f=F(n=4, ops=(1, 2, 9, 8) if q else (0, 1, 2, 9, 8), fins=(1,) if q else (0, 1), masks=(1,), lens=((7, 3),)),
+             singles=4 if q else 8, multis=2),
     ]
     if not q:
         plans += [
-            dict(name="C31_g_trip", c=ws.consts(MaxFrames=3, Ops={0, 1, 2, 8, 9, 3}, Masks={1}, Lens=SMALL, Avoid=avoid),
-                 singles=6, multis=2),
-            dict(name="C31_g_pairrsv", c=ws.consts(MaxFrames=2, Ops={1, 2, 8, 9}, Rsvs={0, 4, 7}, Fins={0, 1}, Masks={1},
-                                                   Lens={(7, 1), (16, 126), (16, 5)}, Avoid=avoid), singles=6, multis=1),
+            dict(name="trip", f=F(n=3, ops=(0, 1, 2, 8, 9, 3), masks=(1,), lens=SMALL), singles=6, multis=2),
+            dict(name="pairrsv", f=F(n=2, ops=(1, 2, 8, 9), rsvs=(0, 4, 7), masks=(1,), lens=((7, 1), (16, 126), (16, 5))), singles=6, multis=1),
         ]
-    total = 0
+    nplan = len(plans)
+    canon_fams = [F(n=len(fixed), fixed=fixed) for (_k, _w, fixed, _wo) in CANON]
+    recs = ws.generate(chk, "C31_gen", ws.consts([p["f"] for p in plans] + canon_fams, Avoid=avoid))
+    if not q:
+        # long random sequences (TLC simulation)
+        sim = ws.generate(chk, "C31_sim", ws.consts([F(n=6, ops=(0, 1, 2, 9, 10, 8), masks=(0, 1),
+                                                      lens=((7, 0), (7, 3), (7, 125), (16, 126), (16, 300)))], Avoid=avoid),
+                          simulate=150, depth=9, seed=seed, workers=4)
+        for r in sim:
+            r["fam"] = nplan + len(CANON) + 1
+        plans.append(dict(name="sim", singles=12, multis=2))
+        recs += sim
     classes = {"delivered": 0, "closed": 0, "after_term": 0, "fragment_open": 0, "policy_open": 0}
-    for p in plans:
-        recs = ws.generate(chk, p["name"], p["c"], simulate=p.get("simulate"), depth=p["c"]["MaxFrames"] + 2 if p.get("simulate") else None,
-                           seed=seed if p.get("simulate") else None)
-        recs = [r for r in recs if not r["known"] or not avoid]
-        for r in recs:
+    for i, p in enumerate(plans):
+        fam_i = i + 1 if p["name"] != "sim" else nplan + len(CANON) + 1
+        rs = [r for r in recs if r["fam"] == fam_i]
+        if not rs:
+            raise vkit.InfraError("family %s generated nothing" % p["name"])
+        for r in rs:
             a0 = r["exp"][0]
             classes["delivered"] += bool(a0["msgs"])
             classes["closed"] += bool(a0["closed"])
             classes["after_term"] += 0 < r["term"] < len(r["fr"])
             classes["fragment_open"] += any(f["d"][0] == 0 and f["d"][2] in (1, 2) for f in r["fr"])
             classes["policy_open"] += len(r["exp"]) > 1
-        for r in recs[:1]:
+        for r in rs[:1]:
             chk.sample({"gen": p["name"], "frames": ws.describe(r), "wire_header_bytes": [f["h"] for f in r["fr"]],
                         "predicted": r["exp"]})
-        n, nf = ws.run_records(chk, exe, recs, rnd, label=p["name"], singles=p["singles"], multis=p["multis"], k2_open=k2_open)
-        vkit.log("[C31] %s: %d sequences, %d runs, %d differ" % (p["name"], len(recs), n, nf))
-        total += n
+        n, nf = ws.run_records(chk, exe, rs, rnd, label="C31_" + p["name"], singles=p["singles"], multis=p["multis"], k2_open=k2_open)
+        vkit.log("[C31] %s: %d sequences, %d runs, %d differ" % (p["name"], len(rs), n, nf))
     for k, v in classes.items():
         if v == 0:
             raise vkit.InfraError("vacuous corpus: no sequence of class %s" % k)
     chk.cov["sequence_classes"] = classes
 
     # ---- 3. canonical scenarios of the known findings (their triggers are excluded above)
-    for key, what, fixed, whole_only in CANON:
-        c = ws.consts(MaxFrames=len(fixed), Fixed=fixed, Lens=SMALL)
-        recs = ws.generate(chk, "C31_canon", c, workers=2)
+    for j, (key, what, fixed, whole_only) in enumerate(CANON):
+        rs = [r for r in recs if r["fam"] == nplan + 1 + j]
+        if len(rs) != 1:
+            raise vkit.InfraError("canonical scenario %d not generated" % j)
+        is_open = st.get(key) == "open"
         k2o = k2_open and not whole_only     # the K2 scenarios need the frames in one write
-        ws.run_records(chk, exe, recs, rnd, label="canonical[%s] %s" % (key, what), singles=0 if st.get(key) == "open" else None,
-                       multis=0, k2_open=k2o, bytewise=st.get(key) != "open" and not whole_only, key=key,
-                       seg_filter=(lambda lab: lab == "whole") if st.get(key) == "open" else None)
+        ws.run_records(chk, exe, rs, rnd, label="canonical[%s] %s" % (key, what), singles=0 if is_open else None,
+                       multis=0, k2_open=k2o, bytewise=not is_open and not whole_only, key=key,
+                       seg_filter=(lambda lab: lab == "whole") if is_open else None)
 
     chk.cov["rule"] = ("TLC: byte-level incremental RFC 6455 decoder over explicit wire bytes, all sequences of <=2 (thorough: 3) frames "
                        "over a small alphabet, every chunking (FeedChunk(k), all k), policies lenient/strict: SegmentationIndependent, "
